@@ -1,14 +1,18 @@
 #!/bin/bash
 # usage: tools/try_seed.sh <patch.diff> <check id>...   -- applies the patch to /repo, runs the checks, reverts.
+# The evidence files are saved and restored: evidence must only ever come from runs on the unchanged tree.
 set -u
 P=$1; shift
 cd /repo || exit 9
 if [ -n "$(git status --porcelain)" ]; then echo "/repo not clean"; exit 9; fi
 git apply "$P" || { echo "patch does not apply"; exit 9; }
 cd /verif
+SAVE=$(mktemp -d /verif/.cache/evsave.XXXXXX)
+cp -a /verif/evidence/. $SAVE/
 for c in "$@"; do
   echo "=== $c on $(basename $(dirname $P))"
   ./check $c > /tmp/try_seed_$c.log 2>&1
   echo "exit=$?"; grep -c "^VIOLATION" /tmp/try_seed_$c.log; grep -A1 "^VIOLATION" /tmp/try_seed_$c.log | head -4 | cut -c1-300; tail -n 2 /tmp/try_seed_$c.log | cut -c1-300
 done
+rm -rf /verif/evidence; mkdir -p /verif/evidence; cp -a $SAVE/. /verif/evidence/; rm -rf $SAVE
 git -C /repo checkout -- . ; git -C /repo status --porcelain
